@@ -106,7 +106,31 @@ def cases(proj):
     yield ("code span stays verbatim", "`[[run]]`", second, None)
 
 
+OVERRIDE = ("module shapes\n  implicit none\n  type :: shape\n  contains\n    procedure :: describe => describe_shape\n  end type shape\n  type, extends(shape) :: circle\n    !! circle doc\n  contains\n"
+            "    procedure :: Describe => describe_circle\n  end type circle\ncontains\n  subroutine describe_shape(self)\n    class(shape) :: self\n  end subroutine describe_shape\n"
+            "  subroutine describe_circle(self)\n    class(circle) :: self\n  end subroutine describe_circle\nend module shapes\n")
+
+
+def overridden_binding_reference():
+    """a reference to a binding that the extending type overrides denotes the override (binding names are case-insensitive), on the extending type's page"""
+    proj = realrun.build_project({"src/shapes.f90": OVERRIDE}, display=["public", "private", "protected"])
+    mdm = loader.import_repo("ford._markdown")
+    md = mdm.MetaMarkdown(project=proj, base_url=".")
+    circle = next(t for t in proj.types if t.name == "circle")
+    bad = []
+    for text in ("[[circle:Describe]]", "[[circle(type):describe(bound)]]", "[[Describe]]"):
+        got, out = href(md, text, circle)
+        if got is None or "type/circle.html#" not in got:
+            bad.append((text, got))
+    if bad:
+        return {"confirmed": True, "input": {"source": OVERRIDE, "context": "type circle"}, "actual": bad, "expected": "links to type/circle.html#boundprocedure-describe...", "how": "href produced by FordLinkProcessor in the context of the extending type"}
+    return None
+
+
 def search():
+    hit = overridden_binding_reference()
+    if hit:
+        return hit
     proj, md = build()
     for label, text, ctx, exp in cases(proj):
         try:
